@@ -41,4 +41,4 @@ def run(ctx):
         "types of fields are compared as text (types.TypeString vs the text written in the class file)",
         "the explicit form is produced by the generator from the same abstract description (this.x for every member reference)",
     ]
-    common.standard(ctx, "GopModel.Props.C11", "c11", 80, 1200, RULE, driver="drv_compc", canon=canon)
+    common.standard(ctx, "GopModel.Props.C11", "c11", 80, 600, RULE, driver="drv_compc", canon=canon)
